@@ -19,7 +19,12 @@ def tla_cfg(c):
             "nodes": [{"op": n[0], "a": n[1], "b": n[2], "name": n[3]} for n in ex["nodes"]], "root": ex["root"]}
 
 
+def tla_skips(skips):
+    return [{"name": n, "el": e} for n, e in (skips or [])]
+
+
 def make_case(tid, prog, cfgs, faults):
+    """prog may carry "skips": [[hook name, element id], ...] -- hooks that call element.skip() at run time"""
     flat = G.flatten(prog)
     return {"tid": tid, "prog": tla_prog(flat), "features": flat["features"], "cfgs": [tla_cfg(c) for c in cfgs],
-            "faults": [list(f) for f in faults]}, flat
+            "faults": [list(f) for f in faults], "skips": tla_skips(prog.get("skips"))}, flat
